@@ -12,40 +12,48 @@ struct Logger : M::LoggerInterface {
 	bool muted = false;
 
 	void recordMethod(const Context&, const StateID origin, const hfsm2::Method method) override {
+		HarnessScope hs;
 		if (muted) return;
 		out() << "log M " << static_cast<int>(origin) << " " << hfsm2::methodName(method) << "\n";
 	}
 	void recordTransition(const Context&, const StateID origin, const hfsm2::TransitionType type, const StateID target) override {
+		HarnessScope hs;
 		if (muted) return;
 		out() << "log T " << (origin == hfsm2::INVALID_STATE_ID ? std::string("-") : std::to_string(static_cast<int>(origin)))
 			  << " " << std::string(1, KIND_LETTER[static_cast<int>(type)]) << " " << static_cast<int>(target) << "\n";
 	}
 #if VH_PLANS
 	void recordTaskStatus(const Context&, const StateID region, const StateID origin, const hfsm2::StatusEvent event) override {
+		HarnessScope hs;
 		if (muted) return;
 		out() << "log K " << (region == static_cast<StateID>(hfsm2::INVALID_REGION_ID) ? std::string("-") : std::to_string(static_cast<int>(region)))
 			  << " " << static_cast<int>(origin) << " " << (event == hfsm2::StatusEvent::SUCCEEDED ? "S" : "F") << "\n";
 	}
 	void recordPlanStatus(const Context&, const StateID region, const hfsm2::StatusEvent event) override {
+		HarnessScope hs;
 		if (muted) return;
 		out() << "log P " << static_cast<int>(region) << " " << (event == hfsm2::StatusEvent::SUCCEEDED ? "S" : "F") << "\n";
 	}
 #endif
 	void recordCancelledPending(const Context&, const StateID origin) override {
+		HarnessScope hs;
 		if (muted) return;
 		out() << "log X " << static_cast<int>(origin) << "\n";
 	}
 	void recordSelectResolution(const Context&, const StateID head, const hfsm2::Prong prong) override {
+		HarnessScope hs;
 		if (muted) return;
 		out() << "log RS " << static_cast<int>(head) << " " << (prong == hfsm2::INVALID_PRONG ? std::string("-") : std::to_string(static_cast<int>(prong))) << "\n";
 	}
 #if VH_UTIL
 	void recordUtilityResolution(const Context&, const StateID head, const hfsm2::Prong prong, const float utility) override {
+		HarnessScope hs;
 		if (muted) return;
 		out() << "log RU " << static_cast<int>(head) << " " << (prong == hfsm2::INVALID_PRONG ? std::string("-") : std::to_string(static_cast<int>(prong)))
 			  << " " << hex(floatBits(utility)) << "\n";
 	}
 	void recordRandomResolution(const Context&, const StateID head, const hfsm2::Prong prong, const float utility) override {
+		HarnessScope hs;
 		if (muted) return;
 		out() << "log RR " << static_cast<int>(head) << " " << (prong == hfsm2::INVALID_PRONG ? std::string("-") : std::to_string(static_cast<int>(prong)))
 			  << " " << hex(floatBits(utility)) << "\n";
@@ -62,15 +70,22 @@ struct Slot {
 	int ctx = 0;
 };
 
+inline const char* envStr(const char* name) { const char* v = getenv(name); return (v && *v) ? v : nullptr; }
+inline int envInt(const char* name, int dflt) { const char* v = envStr(name); return v ? atoi(v) : dflt; }
+
 struct Runner {
-	Slot slots[2];
+	Slot slots[4];		// 0,1: the two instances of a scenario; 2,3: their copies ($VH_COPY_AT)
+	int  base = 0;		// 0: operations address the originals, 2: the copies
+#if !VH_RNG_BUILTIN
 	ScriptRng rng;
+#endif
 #if VH_LOG
 	Logger logger;
 #endif
 	long assertionHits = 0;
 
-	Instance& inst(int k) { return *slots[k].ptr; }
+	Instance& inst(int k) { return *slots[base + k].ptr; }
+
 
 	// an automatic instance is active from construction to destruction
 	static bool active(const Instance& m) {
@@ -81,15 +96,35 @@ struct Runner {
 #endif
 	}
 
-	void enterCall(int k) { script().instance = k; script().instancePtr = slots[k].ptr; }
+	void enterCall(int k) { script().instance = k; script().instancePtr = slots[base + k].ptr; }
+
+	// $VH_FILL = 00|FF|AA|3C|<any hex byte>|rand overrides the fill pattern chosen by the script (the script's
+	// draw still happens, so the scenario is the same); `rand` is noise from a private generator.
+	// $VH_OFFSET = 0..63 moves the instance inside its slot (rounded down to the type's alignment).
+	static void fillStorage(unsigned char* p, size_t n, unsigned char fill) {
+		const char* v = envStr("VH_FILL");
+		if (v && !strcmp(v, "rand")) {
+			uint64_t x = 0x2545F4914F6CDD1Dull ^ reinterpret_cast<uintptr_t>(p);
+			for (size_t i = 0; i < n; ++i) { x ^= x << 13; x ^= x >> 7; x ^= x << 17; p[i] = static_cast<unsigned char>(x >> 24); }
+			return;
+		}
+		if (v) fill = static_cast<unsigned char>(strtoul(v, nullptr, 16));
+		memset(p, fill, n);
+	}
+	static size_t placementOffset() {
+		const int o = envInt("VH_OFFSET", 0);
+		const size_t a = alignof(Instance);
+		return (o <= 0 ? 0u : static_cast<size_t>(o > 63 ? 63 : o)) / a * a;
+	}
 
 	void construct(int k, unsigned char fill) {
-		Slot& s = slots[k];
-		memset(s.storage, fill, sizeof s.storage);
-		void* const where = s.storage;
+		Slot& s = slots[base + k];
+		fillStorage(s.storage, sizeof s.storage, fill);
+		void* const where = s.storage + placementOffset();
 		script().instance = k;
 		script().instancePtr = where;		// callbacks of an automatic instance run inside the constructor
-#if VH_UTIL
+		ApiScope scope;
+#if VH_UTIL && !VH_RNG_BUILTIN
   #if VH_LOG
 		s.ptr = new (where) Instance{s.ctx, rng, &logger};
   #else
@@ -104,10 +139,22 @@ struct Runner {
 #endif
 	}
 
+	// copy-construct instance k into slot 2 + k (the copy shares context, logger and scripted generator)
+	void copyConstruct(int k) {
+		Slot& from = slots[k];
+		Slot& to   = slots[2 + k];
+		fillStorage(to.storage, sizeof to.storage, 0x5A);
+		void* const where = to.storage + placementOffset();
+		script().instance = k;
+		script().instancePtr = from.ptr;
+		ApiScope scope;
+		to.ptr = new (where) Instance{*from.ptr};
+	}
+
 	void destroy(int k) {
 		enterCall(k);
-		slots[k].ptr->~Instance();
-		slots[k].ptr = nullptr;
+		{ ApiScope scope; slots[base + k].ptr->~Instance(); }
+		slots[base + k].ptr = nullptr;
 	}
 
 	//--------------------------------------------------------------------------
@@ -230,6 +277,7 @@ struct Runner {
 		Instance& m = inst(k);
 		const auto id = static_cast<StateID>(dest);
 		enterCall(k);
+		ApiScope scope;		// allocations from here to the end of the call are the library's (mach_alloc.hpp)
 #if VH_PAYLOAD
 		if (payload >= 0) {
 			const Payload p = makePayload(payload);
@@ -283,7 +331,7 @@ struct Runner {
 	std::string saveBits(int k) {
 		Instance::SerialBuffer buffer;
 		enterCall(k);
-		inst(k).save(buffer);
+		{ ApiScope scope; inst(k).save(buffer); }
 		std::string bits;
 		const auto& data = buffer.data();
 		for (unsigned i = 0; i < sizeof(data); ++i)
@@ -301,7 +349,7 @@ struct Runner {
 				if (bits[i * 8 + b] == '1') data[i] |= static_cast<uint8_t>(1u << b);
 		}
 		enterCall(k);
-		inst(k).load(buffer);
+		{ ApiScope scope; inst(k).load(buffer); }
 	}
 #endif
 
@@ -326,6 +374,30 @@ struct Runner {
 	}
 #endif
 
+	// Common-subset mode ($VH_SKIP = comma separated kinds out of update react query req imm task planappend
+	// planclear reset saveload replay, plus `utility`): the kind of an operation is a function of the draw `r`
+	// alone, and kinds that are listed — or that this build lacks — are skipped without drawing anything else.
+	// Builds with different feature sets then walk through the same operation sequence (tools/engine_c15.py).
+	static bool skipListed(const char* kind) {
+		static const char* const list = envStr("VH_SKIP");
+		if (!list) return false;
+		const size_t n = strlen(kind);
+		for (const char* p = list; (p = strstr(p, kind)) != nullptr; p += n)
+			if ((p == list || p[-1] == ',') && (p[n] == 0 || p[n] == ',')) return true;
+		return false;
+	}
+	static bool skipped(unsigned r) {
+		if (!envStr("VH_SKIP")) return false;
+		const char* const kind = r < 28 ? "update" : r < 42 ? "react" : r < 47 ? "query" : r < 62 ? "req" : r < 74 ? "imm"
+							   : r < 79 ? "task" : r < 86 ? "planappend" : r < 87 ? "planclear" : r < 89 ? "reset"
+							   : r < 95 ? "saveload" : r < 98 ? "replay" : "update";
+		if (skipListed(kind)) return true;
+		if (!VH_PLANS   && r >= 74 && r < 87) return true;
+		if (!VH_SERIAL  && r >= 89 && r < 95) return true;
+		if (!VH_HISTORY && r >= 95 && r < 98) return true;
+		return false;
+	}
+
 	void scenario(uint64_t seed, int index, int opCount) {
 		Script& s = script();
 		s.prng = Prng{seed * 1000003ull + static_cast<uint64_t>(index)};
@@ -337,7 +409,7 @@ struct Runner {
 		kn.consume  = s.prng.below(25);
 		kn.planEdit = s.prng.below(30);
 		kn.allowSelect  = true;		// anonymous heads answer the defaults select() = 0, utility() = 1
-		kn.allowUtility = true;
+		kn.allowUtility = !skipListed("utility");
 		Out& o = out();
 		o << "scenario " << index << "\n";
 		o << "shape " << SHAPE_TEXT << "\n";
@@ -363,14 +435,45 @@ struct Runner {
 			o << "op " << k << " enter\n";
 			enterCall(k);
 			s.firstActivation = true;
-			inst(k).enter();
+			{ ApiScope scope; inst(k).enter(); }
 			s.firstActivation = false;
 			o << "end\n";
 			snap(k);
 #endif
 		}
 
-		for (int n = 0; n < opCount; ++n) {
+		// $VH_COPY_AT = n: before operation n both instances are copy-constructed; the rest of the scenario is run
+		// on the originals, then — script generator rewound — on the copies.  A copy continues exactly as its
+		// original iff the two passes print the same text (tools/engine_c10.py compares them).
+		const int copyAt = envInt("VH_COPY_AT", -1);
+		if (copyAt >= 0 && copyAt < opCount) {
+			runOps(0, copyAt);
+			copyConstruct(0); copyConstruct(1);
+			const Prng rewind = s.prng;
+			o << "# copy-pass original\n";
+			runOps(copyAt, opCount);
+			o << "# copy-pass copy\n";
+			s.prng = rewind;
+			base = 2;
+			runOps(copyAt, opCount);
+			o << "# copy-pass end\n";
+			for (int k = 0; k < 2; ++k) destroy(k);		// the copies go first: they refer to members of the originals
+			base = 0;
+		} else
+			runOps(0, opCount);
+
+		for (int k = 0; k < 2; ++k) {
+			o << "op " << k << " destroy\n";
+			destroy(k);
+			o << "end\n";
+		}
+		o.flush();
+	}
+
+	void runOps(int from, int to) {
+		Script& s = script();
+		Out& o = out();
+		for (int n = from; n < to; ++n) {
 			const int k = s.prng.chance(75) ? 0 : 1;
 			Instance& m = inst(k);
 			const unsigned r = s.prng.below(100);
@@ -386,27 +489,28 @@ struct Runner {
 #endif
 				o << "op " << k << " enter\n";
 				s.firstActivation = true;
-				enterCall(k); m.enter();
+				enterCall(k); { ApiScope scope; m.enter(); }
 				s.firstActivation = false;
 				o << "end\n"; snap(k);
 				continue;
 			}
 			if (r >= 97) {
 				o << "op " << k << " exit\n";
-				enterCall(k); m.exit();
+				enterCall(k); { ApiScope scope; m.exit(); }
 				o << "end\n"; snap(k);
 				continue;
 			}
 #endif
+			if (skipped(r)) continue;
 			if (r < 28) {
 				o << "op " << k << " update\n";
-				enterCall(k); m.update();
+				enterCall(k); { ApiScope scope; m.update(); }
 			} else if (r < 42) {
 				o << "op " << k << " react\n";
-				enterCall(k); m.react(Ev{});
+				enterCall(k); { ApiScope scope; m.react(Ev{}); }
 			} else if (r < 47) {
 				o << "op " << k << " query\n";
-				Qy q; enterCall(k); m.query(q);
+				Qy q; enterCall(k); { ApiScope scope; m.query(q); }
 			} else if (r < 62) {
 				const int kind = s.randomKind(true), dest = s.randomState(true), payload = s.randomPayload();
 				o << "op " << k << " req " << std::string(1, KIND_LETTER[kind]) << " " << dest << " " << (payload >= 0 ? std::to_string(payload) : std::string("-")) << "\n";
@@ -422,7 +526,7 @@ struct Runner {
 				const bool ok = s.prng.chance(75);
 				o << "op " << k << (ok ? " succeed " : " fail ") << sid << "\n";
 				enterCall(k);
-				if (ok) m.succeed(static_cast<StateID>(sid)); else m.fail(static_cast<StateID>(sid));
+				{ ApiScope scope; if (ok) m.succeed(static_cast<StateID>(sid)); else m.fail(static_cast<StateID>(sid)); }
 			} else if (r < 86) {
 				// a plan for a random region
 				int head = s.randomState(true);
@@ -432,6 +536,7 @@ struct Runner {
 				o << "op " << k << " planappend " << rid << " " << origin << " " << dest << " " << std::string(1, KIND_LETTER[kind]) << " "
 				  << (payload >= 0 ? std::to_string(payload) : std::string("-")) << "\n";
 				enterCall(k);
+				ApiScope scope;
 				auto plan = m.plan(static_cast<hfsm2::RegionID>(rid));
 				bool res = false;
 				const auto og = static_cast<StateID>(origin);
@@ -463,18 +568,19 @@ struct Runner {
 #endif
 				case 6: res = plan.schedule(og, de); break;
 				}
+				scope.close();
 				o << "ret " << (res ? 1 : 0) << "\n";
 			} else if (r < 87) {
 				int head = regionHeadOf(s.randomState(true));
 				const int rid = STATES[head].regionId;
 				o << "op " << k << " planclear " << rid << "\n";
 				enterCall(k);
-				m.plan(static_cast<hfsm2::RegionID>(rid)).clear();
+				{ ApiScope scope; m.plan(static_cast<hfsm2::RegionID>(rid)).clear(); }
 			}
 #endif
 			else if (r < 89) {
 				o << "op " << k << " reset\n";
-				enterCall(k); m.reset();
+				enterCall(k); { ApiScope scope; m.reset(); }
 			}
 #if VH_SERIAL
 			else if (r < 95) {
@@ -490,7 +596,8 @@ struct Runner {
 				if (prev.count() == 0 || !active(inst(dst))) { --n; if (s.prng.chance(50)) ++n; continue; }
 				o << "op " << dst << " replay " << transitionList(prev) << "\n";
 				enterCall(dst);
-				const bool res = inst(dst).replayTransitions(&prev[0], prev.count());
+				bool res;
+				{ ApiScope scope; res = inst(dst).replayTransitions(&prev[0], prev.count()); }
 				o << "ret " << (res ? 1 : 0) << "\n" << "end\n";
 				snap(dst);
 				continue;
@@ -498,19 +605,12 @@ struct Runner {
 #endif
 			else {
 				o << "op " << k << " update\n";
-				enterCall(k); m.update();
+				enterCall(k); { ApiScope scope; m.update(); }
 			}
 			o << "end\n";
 			snap(k);
 			if (o.buf.size() > (1u << 20) || getenv("VH_FLUSH")) o.flush();
 		}
-
-		for (int k = 0; k < 2; ++k) {
-			o << "op " << k << " destroy\n";
-			destroy(k);
-			o << "end\n";
-		}
-		o.flush();
 	}
 };
 
@@ -524,6 +624,9 @@ inline int run(int argc, char** argv) {
 	for (int i = 0; i < scenarios; ++i)
 		runner.scenario(seed, i, ops);
 	out() << "# stat assertion_hits=" << static_cast<long long>(g_assertionHits) << "\n";
+	out() << "# stat allocations_inside_api=" << static_cast<long long>(allocStats().inside) << "\n";
+	out() << "# stat allocations_by_harness=" << static_cast<long long>(allocStats().outside) << "\n";
+	out() << "# stat sizeof_instance=" << static_cast<long long>(sizeof(Instance)) << "\n";
 	out().flush();
 	return 0;
 }
@@ -531,6 +634,7 @@ inline int run(int argc, char** argv) {
 } // namespace vh
 
 extern "C" void hfsm2_verif_break(const char* file, int line) noexcept {
+	vh::HarnessScope hs;
 	++vh::g_assertionHits;
 	const char* base = strrchr(file, '/');
 	vh::out() << "assert " << (base ? base + 1 : file) << ":" << line << "\n";
